@@ -1,4 +1,5 @@
 """C12 - reports compose over the log history."""
+import os
 import vlib
 from props import common
 
@@ -9,6 +10,9 @@ def run(ctx):
     cfg = "MC_Reporters_quick.cfg" if q else "MC_Reporters_thorough.cfg"
     # TLC: DayOutputLocal (action property) and PeriodAdditive on every enumerated history; the operational reporters are bound by the replay
     common.replay_layer(ctx, "MC_Reporters.tla", cfg, "compose-replay", "compose", args={"stride": 4 if q else 1}, workers=10, heap="3g")
+    # across processes: one process for the concatenated log against one process per block (the real binary)
+    rb = ctx.drv("compose-binary", outfile=os.path.join(ctx.scratch, "compose_bin_mm.ndjson"), env_extra={"VERIF_BIN": ctx.build_binary()})
+    ctx.add("evaluations", rb["runs"])
     # random longer histories: Day events validated by TLC step by step
     common.trace_layer(ctx, "reporters-trace", "Trace_Reporters.tla", "Trace_Reporters.cfg", "reporters", "reporters-trace-rejected",
                        {"logs": 120 if q else 3000}, "cmd/hranoprovod-cli", selftests=[("day-chunk-row-dropped", drop_row)])
